@@ -155,6 +155,7 @@ class Live(JupyterMixin, RenderHook):
             if not self._started:
                 return
             self._started = False
+            vertical_overflow = self.vertical_overflow
             try:
                 if self.auto_refresh and self._refresh_thread is not None:
                     self._refresh_thread.stop()
@@ -165,6 +166,8 @@ class Live(JupyterMixin, RenderHook):
                 if self.console.is_terminal:
                     self.console.line()
             finally:
+                # "visible" is only for the last frame; a later start() uses the configured method again
+                self.vertical_overflow = vertical_overflow
                 self._disable_redirect_io()
                 self.console.pop_render_hook()
                 self.console.show_cursor(True)
